@@ -14,7 +14,8 @@ import sys
 _mon = getattr(sys, 'monitoring', None)
 TOOL_REACH = 3
 TOOL_PROBE = 4
-_state = {'reach': {}, 'probes': {}, 'on': False}
+TOOL_COVER = 5
+_state = {'reach': {}, 'probes': {}, 'on': False, 'cover': {}, 'cover_on': False}
 
 
 def _code_of(fn):
@@ -110,3 +111,43 @@ def probe(name, fn, anchor_text, callback, occurrence=0):
     if line is not None:
         _mon.set_local_events(TOOL_PROBE, code, _mon.events.LINE)
     return line is not None
+
+
+# ----------------------------------------------------------------- statement coverage of branchy anchors
+def _on_cover_line(code, line):
+    rec = _state['cover'].get(code)
+    if rec is not None:
+        rec[1].add(line)
+    return _mon.DISABLE          # one event per (code, line) is all we need
+
+
+def cover(ctx, funcs):
+    """funcs: {label: callable}. Records which statement lines of each function were executed at least once;
+    the evidence lists the lines that never were (branches the workload did not drive)."""
+    if _mon is None:
+        return
+    if not _state['cover_on']:
+        try:
+            _mon.use_tool_id(TOOL_COVER, 'rv-cover')
+        except ValueError:
+            pass
+        _mon.register_callback(TOOL_COVER, _mon.events.LINE, _on_cover_line)
+        _state['cover_on'] = True
+    import dis
+    for label, fn in funcs.items():
+        code = _code_of(fn)
+        if code is None or code in _state['cover']:
+            continue
+        lines = set(l for _o, l in dis.findlinestarts(code) if l is not None and l != code.co_firstlineno)
+        _state['cover'][code] = [label, set(), lines]
+        _mon.set_local_events(TOOL_COVER, code, _mon.events.LINE)
+
+
+def cover_report(ctx):
+    if not _state['cover']:
+        return
+    out = {}
+    for code, (label, seen, lines) in _state['cover'].items():
+        out[label] = {'statement_lines': len(lines), 'executed': sorted(seen & lines),
+                      'never_executed': sorted(lines - seen)}
+    ctx.extra['line_coverage'] = out
